@@ -9,6 +9,7 @@ import (
 	"sort"
 
 	"github.com/protolambda/zrnt/eth2/beacon/common"
+	"github.com/protolambda/ztyp/bitfields"
 	"github.com/protolambda/ztyp/codec"
 	"github.com/protolambda/ztyp/tree"
 	. "github.com/protolambda/ztyp/view"
@@ -210,6 +211,10 @@ func ProcessAttestation(spec *common.Spec, epc *common.EpochsContext, state Phas
 
 // Convert attestation to (almost) indexed-verifiable form
 func (attestation *Attestation) ConvertToIndexed(spec *common.Spec, committee []common.ValidatorIndex) (*IndexedAttestation, error) {
+	// The bits may have bypassed deserialization checks: a bitlist without its delimiter bit has no length.
+	if err := bitfields.BitlistCheck(attestation.AggregationBits, uint64(spec.MAX_VALIDATORS_PER_COMMITTEE)); err != nil {
+		return nil, fmt.Errorf("attestation aggregation bits are not a valid bitlist: %v", err)
+	}
 	bitLen := attestation.AggregationBits.BitLen()
 	if uint64(len(committee)) != bitLen {
 		return nil, fmt.Errorf("committee size does not match bits size: %d <> %d", len(committee), bitLen)
